@@ -1,4 +1,348 @@
+//! C08 — totality and memory safety of the network-facing decoders.
+//! A scenario {dec, toks, target:{tag}, mut} is concretised (token -> bytes table below, plus an optional seeded byte-level
+//! mutation), handed to the REAL decoder for the REAL target type, and every str / slice the decoder yields is checked:
+//! range against the input buffer (before the bytes are touched) and UTF-8 validity. Panics / aborts / hangs are turned
+//! into observations by the worker framework in main.rs. Nothing here decides: Trace_Decoders.tla does.
+use crate::util::{self, Rng};
+use ohkami_lib::serde_multipart::File;
+use serde::de::IgnoredAny;
+use serde::Deserialize;
 use serde_json::{json, Value};
-pub fn run(_scn: &Value) -> Value { json!({"kind": "unimplemented"}) }
-#[allow(dead_code)]
-pub fn gen(_rng: &mut crate::util::Rng, i: usize) -> Value { json!({"id": i}) }
+use std::borrow::Cow;
+use std::collections::{BTreeMap, HashMap};
+
+// ------------------------------------------------------------------------------------------------ checks
+pub struct Pcx { base: usize, len: usize, pub inrange: bool, pub utf8ok: bool, pub strs: u32, pub borrowed: u32, check_range: bool }
+impl Pcx {
+    fn new(buf: &[u8], check_range: bool) -> Self { Pcx { base: buf.as_ptr() as usize, len: buf.len(), inrange: true, utf8ok: true, strs: 0, borrowed: 0, check_range } }
+    /// range check without touching the bytes; empty slices are inside by convention
+    fn slice(&mut self, p: *const u8, n: usize) -> bool {
+        if n == 0 || !self.check_range { return true }
+        self.borrowed += 1;
+        let a = p as usize;
+        let ok = a >= self.base && a.checked_add(n).map_or(false, |e| e <= self.base + self.len);
+        if !ok { self.inrange = false }
+        ok
+    }
+    fn borrowed_str(&mut self, s: &str) { self.strs += 1; if self.slice(s.as_ptr(), s.len()) && std::str::from_utf8(s.as_bytes()).is_err() { self.utf8ok = false } }
+    fn owned_str(&mut self, s: &str) { self.strs += 1; if s.len() < (1 << 30) && std::str::from_utf8(s.as_bytes()).is_err() { self.utf8ok = false } }
+}
+pub trait Probe { fn probe(&self, _cx: &mut Pcx) {} }
+macro_rules! noprobe { ($($t:ty),*) => { $(impl Probe for $t {})* } }
+noprobe!(i8, i16, i32, i64, u8, u16, u32, u64, usize, f32, f64, bool, (), IgnoredAny);
+impl Probe for char { fn probe(&self, cx: &mut Pcx) { if char::from_u32(*self as u32).is_none() { cx.utf8ok = false } } }
+impl Probe for &str { fn probe(&self, cx: &mut Pcx) { cx.borrowed_str(self) } }
+impl Probe for String { fn probe(&self, cx: &mut Pcx) { cx.owned_str(self) } }
+impl Probe for Cow<'_, str> { fn probe(&self, cx: &mut Pcx) { match self { Cow::Borrowed(s) => cx.borrowed_str(s), Cow::Owned(s) => cx.owned_str(s) } } }
+impl Probe for &[u8] { fn probe(&self, cx: &mut Pcx) { cx.slice(self.as_ptr(), self.len()); } }
+impl<T: Probe> Probe for Option<T> { fn probe(&self, cx: &mut Pcx) { if let Some(x) = self { x.probe(cx) } } }
+impl<T: Probe> Probe for Vec<T> { fn probe(&self, cx: &mut Pcx) { if self.len() > (1 << 24) { cx.inrange = false; return } for x in self { x.probe(cx) } } }
+impl<A: Probe, B: Probe> Probe for (A, B) { fn probe(&self, cx: &mut Pcx) { self.0.probe(cx); self.1.probe(cx) } }
+impl<K: Probe, V: Probe> Probe for HashMap<K, V> { fn probe(&self, cx: &mut Pcx) { for (k, v) in self { k.probe(cx); v.probe(cx) } } }
+impl<K: Probe, V: Probe> Probe for BTreeMap<K, V> { fn probe(&self, cx: &mut Pcx) { for (k, v) in self { k.probe(cx); v.probe(cx) } } }
+impl Probe for File<'_> { fn probe(&self, cx: &mut Pcx) { cx.borrowed_str(self.filename); cx.borrowed_str(self.mimetype); cx.slice(self.content.as_ptr(), self.content.len()); } }
+
+// ------------------------------------------------------------------------------------------------ target catalogue
+#[derive(Deserialize)] #[serde(bound(deserialize = "T: Deserialize<'de>"))] pub struct Fa<T> { pub a: T }
+impl<T: Probe> Probe for Fa<T> { fn probe(&self, cx: &mut Pcx) { self.a.probe(cx) } }
+#[derive(Deserialize)] pub struct F0 {}
+impl Probe for F0 {}
+#[derive(Deserialize)] pub struct Inner { pub x: u32 }
+impl Probe for Inner {}
+#[derive(Deserialize)] pub struct S2 { pub a: String, pub b: Option<u32> }
+impl Probe for S2 { fn probe(&self, cx: &mut Pcx) { self.a.probe(cx) } }
+#[derive(Deserialize)] pub struct M2<'a> { #[serde(borrow)] pub a: Option<File<'a>>, pub b: Option<&'a str> }
+impl Probe for M2<'_> { fn probe(&self, cx: &mut Pcx) { self.a.probe(cx); self.b.probe(cx) } }
+#[derive(Deserialize)] pub struct US;
+impl Probe for US {}
+#[derive(Deserialize)] pub enum E { #[serde(rename = "x")] X, A }
+impl Probe for E {}
+#[derive(Deserialize)] pub enum EN { #[serde(rename = "x")] X(u32), A }
+impl Probe for EN {}
+#[derive(Deserialize)] pub enum ES { #[serde(rename = "x")] X { v: u32 }, A }
+impl Probe for ES { fn probe(&self, _cx: &mut Pcx) { if let ES::X { v } = self { let _ = v; } } }
+#[derive(Deserialize)] pub struct N(pub u32);
+impl Probe for N {}
+#[derive(Deserialize)] pub struct NStr(pub String);
+impl Probe for NStr { fn probe(&self, cx: &mut Pcx) { self.0.probe(cx) } }
+#[derive(Deserialize)] pub struct TS(pub u8, pub String);
+impl Probe for TS { fn probe(&self, cx: &mut Pcx) { self.1.probe(cx) } }
+#[derive(Deserialize)] pub struct NS(pub Fa<u32>);
+impl Probe for NS {}
+#[derive(Deserialize)] pub struct NF<'a>(#[serde(borrow)] pub File<'a>);
+impl Probe for NF<'_> { fn probe(&self, cx: &mut Pcx) { self.0.probe(cx) } }
+/// a target that asks for `deserialize_byte_buf`
+pub struct BB(pub Vec<u8>);
+impl Probe for BB {}
+impl<'de> Deserialize<'de> for BB {
+    fn deserialize<D: serde::Deserializer<'de>>(d: D) -> Result<Self, D::Error> {
+        struct V;
+        impl<'de> serde::de::Visitor<'de> for V {
+            type Value = BB;
+            fn expecting(&self, f: &mut std::fmt::Formatter) -> std::fmt::Result { f.write_str("bytes") }
+            fn visit_bytes<E: serde::de::Error>(self, v: &[u8]) -> Result<BB, E> { Ok(BB(v.to_vec())) }
+            fn visit_byte_buf<E: serde::de::Error>(self, v: Vec<u8>) -> Result<BB, E> { Ok(BB(v)) }
+            fn visit_str<E: serde::de::Error>(self, v: &str) -> Result<BB, E> { Ok(BB(v.as_bytes().to_vec())) }
+        }
+        d.deserialize_byte_buf(V)
+    }
+}
+
+pub trait Dec { fn dec<'de, T: Deserialize<'de>>(input: &'de [u8]) -> Result<T, String>; }
+pub struct Url; pub struct Cki; pub struct Mp;
+impl Dec for Url { fn dec<'de, T: Deserialize<'de>>(i: &'de [u8]) -> Result<T, String> { ohkami_lib::serde_urlencoded::from_bytes::<T>(i).map_err(|e| e.to_string()) } }
+impl Dec for Cki { fn dec<'de, T: Deserialize<'de>>(i: &'de [u8]) -> Result<T, String> {
+    // the Cookie header reaches the decoder as &str; the caller of `run` has made the bytes valid UTF-8
+    ohkami_lib::serde_cookie::from_str::<T>(std::str::from_utf8(i).expect("harness: cookie input is UTF-8")).map_err(|e| e.to_string()) } }
+impl Dec for Mp { fn dec<'de, T: Deserialize<'de>>(i: &'de [u8]) -> Result<T, String> { ohkami_lib::serde_multipart::from_bytes::<T>(i).map_err(|e| e.to_string()) } }
+
+type Out = Result<(), String>;
+fn go<'de, D: Dec, T: Deserialize<'de> + Probe>(input: &'de [u8], cx: &mut Pcx) -> Out { D::dec::<T>(input).map(|v| v.probe(cx)) }
+
+fn by_type<'de, D: Dec + 'static>(field: bool, ty: &str, input: &'de [u8], cx: &mut Pcx) -> Option<Out> {
+    macro_rules! g { ($t:ty) => { if field { go::<D, Fa<$t>>(input, cx) } else { go::<D, $t>(input, cx) } } }
+    Some(match ty {
+        "i8" => g!(i8), "i16" => g!(i16), "i32" => g!(i32), "i64" => g!(i64), "u8" => g!(u8), "u16" => g!(u16), "u32" => g!(u32), "u64" => g!(u64),
+        "bool" => g!(bool), "f32" => g!(f32), "f64" => g!(f64), "char" => g!(char),
+        "str" => g!(&'de str), "string" => g!(String), "cow" => g!(Cow<'de, str>), "bytes" => g!(&'de [u8]), "bytebuf" => g!(BB),
+        "opt_u32" => g!(Option<u32>), "opt_str" => g!(Option<&'de str>), "unit" => g!(()), "unitstruct" => g!(US),
+        "enum" => g!(E), "enum_nt" => g!(EN), "enum_st" => g!(ES), "newtype" => g!(N), "newtype_str" => g!(NStr),
+        "vec_string" => g!(Vec<String>), "vec_u32" => g!(Vec<u32>), "vec_str" => g!(Vec<&'de str>), "tuple" => g!((u8, String)), "tuplestruct" => g!(TS),
+        "map" => g!(HashMap<String, String>), "btreemap_int" => g!(BTreeMap<String, i32>), "nested" => g!(Inner),
+        "ignored" => if field { go::<D, F0>(input, cx) } else { go::<D, IgnoredAny>(input, cx) },
+        "struct2" => if std::any::TypeId::of::<D>() == std::any::TypeId::of::<Mp>() { go::<D, M2<'de>>(input, cx) } else { go::<D, S2>(input, cx) },
+        "opt_struct" => go::<D, Option<Fa<u32>>>(input, cx), "newtype_struct" => go::<D, NS>(input, cx),
+        "file" => g!(File<'de>), "opt_file" => g!(Option<File<'de>>), "vec_file" => g!(Vec<File<'de>>), "newtype_file" => g!(NF<'de>),
+        _ => return None,
+    })
+}
+
+// ------------------------------------------------------------------------------------------------ concretisation
+struct Tab { one: &'static str, x: &'static str, hi: u8, u8c: &'static str, huge: &'static str, b: &'static str }
+fn tab(cv: u64) -> Tab {
+    let mut r = Rng::new(cv ^ 0xC08);
+    Tab { one: ["1", "7", "0", "42"][r.below(4)], x: ["x", "q", "Zz"][r.below(3)], hi: [0xFFu8, 0x80, 0xC0, 0xF5][r.below(4)], u8c: ["é", "あ"][r.below(2)],
+          huge: ["9999999999999999999999999", "18446744073709551616", "36893488147419103233"][r.below(3)], b: ["b", "Xy9"][r.below(2)] }
+}
+fn mp_head(h: &str, t: &Tab) -> Vec<u8> {
+    let cd = "Content-Disposition: form-data; name=\"a\"";
+    let s: String = match h {
+        "text" => format!("{cd}\r\n\r\n"),
+        "file" => format!("{cd}; filename=\"f.txt\"\r\n\r\n"),
+        "filect" => format!("{cd}; filename=\"f.txt\"\r\nContent-Type: text/plain\r\n\r\n"),
+        "conv" => format!("{cd}; filename=\"\"\r\nContent-Type: application/octet-stream\r\n\r\n"),
+        "nocd" => "Content-Type: text/plain\r\n\r\n".into(),
+        "noblank" => format!("{cd}\r\n"),
+        "badhdr" => ":junk\r\n\r\n".into(),
+        "noquote" => "Content-Disposition: form-data; name=a\r\n\r\n".into(),
+        "lfonly" => format!("{cd}\n\n"),
+        "mixed" => format!("{cd}; filename=\"f.txt\"\r\nContent-Type: multipart/mixed\r\n\r\n"),
+        "hiname" => { let mut v = b"Content-Disposition: form-data; name=\"".to_vec(); v.push(t.hi); v.extend_from_slice(b"\"\r\n\r\n"); return v }
+        "nofnquote" => format!("{cd}; filename=f.txt\r\n\r\n"),
+        "openquote" => "Content-Disposition: form-data; name=\"a\r\n\r\n".into(),
+        "ctnoval" => format!("{cd}; filename=\"f.txt\"\r\nContent-Type\r\n\r\n"),
+        _ => return vec![],
+    };
+    s.into_bytes()
+}
+fn bytes_of(dec: &str, tok: &str, t: &Tab, out: &mut Vec<u8>) -> bool {
+    if dec == "multipart" {
+        if let Some(h) = tok.strip_prefix("P:") { out.extend_from_slice(b"--"); out.extend_from_slice(t.b.as_bytes()); out.extend_from_slice(b"\r\n"); let v = mp_head(h, t); if v.is_empty() { return false } out.extend(v); return true }
+        if let Some(h) = tok.strip_prefix("N:") { out.extend_from_slice(b"\r\n"); let v = mp_head(h, t); if v.is_empty() { return false } out.extend(v); return true }
+        match tok {
+            "D" => { out.extend_from_slice(b"\r\n--"); out.extend_from_slice(t.b.as_bytes()); return true }
+            "D:other" => { out.extend_from_slice(b"\r\n--c0"); return true }
+            "B" => { out.extend_from_slice(b"--"); out.extend_from_slice(t.b.as_bytes()); return true }
+            "END" => { out.extend_from_slice(b"--"); return true }
+            _ => {}
+        }
+    }
+    let s: &str = match tok {
+        "ka" => "a", "kz" => "zz", "n" => "sid", "v" => "v", "=" | "&" | "; " | ";" | " " | "," | "-" | "." | "+" | "/" | "(" | "%" | "%4" | "%G1" | "%FF" | "%C3" | "%41" | "%C3%A9" | "%00" | "%2F" | "e" | "c"
+            | "true" | "Max-Age=" | "max-age=" | "Max-Age" | "Path=" | "Expires=" | "Domain=" | "Secure" | "HttpOnly" | "SameSite=" | "Lax" | "Foo" => tok,
+        "1" => t.one, "x" => t.x, "U8" => t.u8c, "DQ" => "\"", "CRLF" => "\r\n", "CR" => "\r", "LF" => "\n", "NUL" => "\0",
+        "HUGE" => t.huge, "9x20" => "99999999999999999999",
+        "HI" => { out.push(t.hi); return true }
+        _ => return false,
+    };
+    out.extend_from_slice(s.as_bytes()); true
+}
+const SPECIALS: &[u8] = b"%=&;,\" \r\n\0-+/:\xFF\x80\xC3(";
+fn mutate(b: &mut Vec<u8>, seed: u64) {
+    let mut r = Rng::new(seed ^ 0x6d7574);
+    for _ in 0..r.range(1, 2) {
+        match r.below(6) {
+            0 if !b.is_empty() => { let i = r.below(b.len()); b[i] = (r.next() & 0xFF) as u8 }
+            1 if !b.is_empty() => { let i = r.below(b.len()); b.remove(i); }
+            2 if !b.is_empty() => { let i = r.below(b.len()); let c = b[i]; b.insert(i, c) }
+            3 => { let i = r.below(b.len() + 1); b.insert(i, SPECIALS[r.below(SPECIALS.len())]) }
+            4 if !b.is_empty() => { let k = r.below(b.len()); b.truncate(k) }
+            _ if !b.is_empty() => { let i = r.below(b.len()); b[i] ^= 1 << r.below(8) }
+            _ => b.push(SPECIALS[r.below(SPECIALS.len())]),
+        }
+    }
+}
+
+fn err_class(m: &str) -> String { util::clip(&crate::multipart::err_class(m), 40) }
+fn finish(r: Out, cx: &Pcx, input: &[u8], maxage: &str) -> Value {
+    // an error message is a yielded string too: validate it, and never let invalid UTF-8 into the observation line
+    let (kind, raw): (&str, &[u8]) = match &r { Ok(()) => ("value", b""), Err(m) => ("error", m.as_bytes()) };
+    let utf8ok = cx.utf8ok && std::str::from_utf8(raw).is_ok();
+    let msg = String::from_utf8_lossy(raw).into_owned();
+    let err = if kind == "error" { err_class(&msg) } else { String::new() };
+    json!({"kind": kind, "utf8ok": utf8ok, "inrange": cx.inrange, "maxage": maxage, "where": "", "err": err, "msg": util::clip(&msg, 120),
+           "strs": cx.strs, "borrowed": cx.borrowed, "hex": util::hex(&input[..input.len().min(400)])})
+}
+
+fn run_setcookie(input: &[u8]) -> Value {
+    // SetCookie::from_raw is crate-private; the public route is the response-header builder whose output
+    // `Headers::SetCookie()` parses back. The builder writes name "=" percent_encode(value) [ "; Path=" path ] verbatim, so:
+    //   W = name "=" alnum* [ "; " rest ]  is delivered exactly as  name=alnum; Path=/; rest   (directive-level inputs)
+    //   any other W is delivered as  W "="                                                     (name/value-level inputs)
+    let w = String::from_utf8_lossy(input).into_owned();
+    let (name, value, path): (String, String, Option<String>) = (|| {
+        if let Some(i) = w.find('=') {
+            let rest = &w[i + 1..];
+            let (val, dirs) = match rest.find("; ") { Some(j) => (&rest[..j], Some(&rest[j + 2..])), None => (rest, None) };
+            if val.bytes().all(|c| c.is_ascii_alphanumeric()) { return (w[..i].to_string(), val.to_string(), dirs.map(|d| format!("/; {d}"))) }
+        }
+        (w.clone(), String::new(), None)
+    })();
+    let raw = format!("{}={}{}", name, value, path.as_ref().map(|p| format!("; Path={p}")).unwrap_or_default());
+    let mut res = ohkami::Response::OK();
+    let name: &'static str = util::leak(name);
+    res.headers.set().SetCookie(name, value, |d| match path { Some(p) => d.Path(p), None => d });
+    let mut cx = Pcx::new(raw.as_bytes(), false);
+    let mut maxage = "-".to_string();
+    let mut n = 0;
+    for c in res.headers.SetCookie() {
+        n += 1;
+        let (k, v) = c.Cookie(); cx.owned_str(k); cx.owned_str(v);
+        for s in [c.Expires(), c.Domain(), c.Path(), c.SameSite()].into_iter().flatten() { cx.owned_str(s) }
+        if let Some(m) = c.MaxAge() { maxage = m.to_string() }
+    }
+    let r: Out = if n > 0 { Ok(()) } else { Err("Set-Cookie refused".into()) };
+    finish(r, &cx, raw.as_bytes(), &maxage)
+}
+
+fn deliverable_in_request_line(b: &[u8]) -> bool { b.iter().all(|&c| c > 0x20 && c != 0x7f && c != b'?' && c != b'#') }
+fn run_request(tag: &str, input: &[u8]) -> Value {
+    if !deliverable_in_request_line(input) || input.len() > 600 {
+        let cx = Pcx::new(input, false);
+        return finish(Err("not deliverable inside a request line".into()), &cx, input, "-")
+    }
+    let mut req = b"GET /".to_vec();
+    if tag == "query.iter" { req.extend_from_slice(b"p?") }
+    req.extend_from_slice(input); req.extend_from_slice(b" HTTP/1.1\r\nHost: x\r\n\r\n");
+    let mut vr = ohkami::__verif::VRequest::new();
+    let mut rd = util::ScriptedReader::new(vec![req]);
+    let got = util::block_on(vr.read(&mut rd));
+    let mut cx = Pcx::new(input, false);
+    let r: Out = match got {
+        Ok(Some(())) => {
+            let rq = vr.get();
+            if tag == "query.iter" { for (k, v) in rq.query.iter() { k.probe(&mut cx); v.probe(&mut cx) } }
+            else { let s = rq.path.str(); s.probe(&mut cx); let _ = format!("{:?}", rq.path); }
+            Ok(())
+        }
+        Ok(None) => Err("connection closed".into()),
+        Err(res) => Err(format!("refused with status {}", res.status.code())),
+    };
+    finish(r, &cx, input, "-")
+}
+
+fn run_pct(tag: &str, input: &[u8]) -> Value {
+    use ohkami::FromParam;
+    if tag == "path.str" || tag == "query.iter" { return run_request(tag, input) }
+    let mut cx = Pcx::new(input, true);
+    macro_rules! p { ($t:ty) => { match <$t as FromParam>::from_raw_param(input) { Ok(v) => { v.probe(&mut cx); Ok(()) } Err(res) => Err(format!("param refused with status {}", res.status.code())) } } }
+    let r: Out = match tag {
+        "decode_utf8" => match ohkami_lib::percent_decode_utf8(input) { Ok(c) => { c.probe(&mut cx); Ok(()) } Err(e) => Err(e.to_string()) },
+        "decode" => { match ohkami_lib::percent_decode(input) { Cow::Borrowed(b) => { cx.slice(b.as_ptr(), b.len()); } Cow::Owned(_) => {} } Ok(()) }
+        "param:string" => p!(String), "param:cow" => p!(Cow<'_, str>), "param:str" => p!(&str),
+        "param:u8" => p!(u8), "param:u16" => p!(u16), "param:u32" => p!(u32), "param:u64" => p!(u64), "param:usize" => p!(usize),
+        "param:i8" => p!(i8), "param:i16" => p!(i16), "param:i32" => p!(i32), "param:i64" => p!(i64),
+        _ => return json!({"kind": "tool-error", "msg": format!("unknown pct target {tag}")}),
+    };
+    finish(r, &cx, input, "-")
+}
+
+thread_local! { static LAST: std::cell::RefCell<Vec<u8>> = const { std::cell::RefCell::new(Vec::new()) }; }
+/// Panics are caught here (not only by the worker framework) because a panic message of these decoders can itself carry
+/// invalid UTF-8 (it quotes the string the decoder built); the observation line must stay valid UTF-8.
+pub fn run(scn: &Value) -> Value {
+    static HOOK: std::sync::Once = std::sync::Once::new();
+    HOOK.call_once(|| std::panic::set_hook(Box::new(|info| {
+        let loc = info.location().map(|l| format!("{}:{}", l.file(), l.line())).unwrap_or_default();
+        let msg: Vec<u8> = if let Some(s) = info.payload().downcast_ref::<&str>() { s.as_bytes().to_vec() }
+                           else if let Some(s) = info.payload().downcast_ref::<String>() { s.as_bytes().to_vec() } else { b"?".to_vec() };
+        let mut m = loc.into_bytes(); m.extend_from_slice(b": "); m.extend_from_slice(&msg[..msg.len().min(300)]);
+        LAST.with(|p| *p.borrow_mut() = m);
+    })));
+    match std::panic::catch_unwind(std::panic::AssertUnwindSafe(|| run_inner(scn))) {
+        Ok(v) => v,
+        Err(_) => {
+            let raw = LAST.with(|p| p.borrow().clone());
+            let m = String::from_utf8_lossy(&raw).into_owned();
+            json!({"kind": "panic", "where": util::panic_site(&m), "msg": util::clip(&m, 200), "msgutf8": std::str::from_utf8(&raw).is_ok()})
+        }
+    }
+}
+fn run_inner(scn: &Value) -> Value {
+    let dec = util::s(&scn["dec"]);
+    let tag = util::s(&scn["target"]["tag"]);
+    let cv = scn.get("cv").and_then(|v| v.as_u64()).unwrap_or(0);
+    let t = tab(cv);
+    let mut bytes = vec![];
+    for tk in util::arr(&scn["toks"]) { if !bytes_of(dec, util::s(tk), &t, &mut bytes) { return json!({"kind": "tool-error", "msg": format!("unknown token {tk} for {dec}")}) } }
+    let m = scn.get("mut").and_then(|v| v.as_u64()).unwrap_or(0);
+    if m != 0 { mutate(&mut bytes, m) }
+    if dec == "cookie" { bytes = String::from_utf8_lossy(&bytes).into_owned().into_bytes() }
+    // exact-size allocation: nothing of ours lies behind the input
+    let input: Box<[u8]> = bytes.into_boxed_slice();
+    match dec {
+        "setcookie" => run_setcookie(&input),
+        "pct" => run_pct(tag, &input),
+        "urlenc" | "cookie" | "multipart" => {
+            let (pos, ty) = tag.split_once(':').unwrap_or(("", ""));
+            let mut cx = Pcx::new(&input, true);
+            let r = match dec { "urlenc" => by_type::<Url>(pos == "f", ty, &input, &mut cx), "cookie" => by_type::<Cki>(pos == "f", ty, &input, &mut cx), _ => by_type::<Mp>(pos == "f", ty, &input, &mut cx) };
+            match r { Some(r) => finish(r, &cx, &input, "-"), None => json!({"kind": "tool-error", "msg": format!("unknown target {tag}")}) }
+        }
+        _ => json!({"kind": "tool-error", "msg": format!("unknown decoder {dec}")}),
+    }
+}
+
+// ------------------------------------------------------------------------------------------------ random scenarios
+// token strings drawn without regard to the grammar (length <= 12), any target of the decoder, mostly with a byte-level mutation
+const KV_TYPES: &[&str] = &["i8", "i16", "i32", "i64", "u8", "u16", "u32", "u64", "bool", "f32", "f64", "char", "str", "string", "cow", "bytes", "bytebuf", "opt_u32", "opt_str",
+    "unit", "unitstruct", "enum", "enum_nt", "enum_st", "newtype", "newtype_str", "vec_string", "vec_u32", "tuple", "tuplestruct", "map", "ignored"];
+const MP_TAGS: &[&str] = &["f:str", "f:string", "f:opt_str", "f:file", "f:opt_file", "f:vec_file", "f:u32", "f:bool", "f:ignored", "f:vec_str", "f:newtype_file", "f:enum", "f:unit",
+    "f:bytes", "f:char", "f:f64", "f:tuple", "f:map", "t:map", "t:file", "t:u32", "t:string", "t:vec_file", "t:opt_struct", "t:unit", "t:ignored", "t:struct2"];
+const PCT_TAGS: &[&str] = &["decode_utf8", "decode", "path.str", "query.iter", "param:string", "param:cow", "param:str", "param:u8", "param:u16", "param:u32", "param:u64", "param:usize",
+    "param:i8", "param:i16", "param:i32", "param:i64"];
+pub fn gen(rng: &mut Rng, i: usize) -> Value {
+    let dec = *rng.pick(&["urlenc", "urlenc", "cookie", "cookie", "multipart", "multipart", "setcookie", "pct"]);
+    let toks: &[&str] = match dec {
+        "urlenc" => &["ka", "kz", "=", "&", "1", "x", "true", ",", "%41", "-", ".", "+", "%C3%A9", "e", "%", "%4", "%G1", "%FF", "%C3", "HI", "NUL"],
+        "cookie" => &["ka", "kz", "=", "; ", ";", " ", "1", "x", "true", "%41", "-", ".", "%C3%A9", "DQ", "%", "%G1", "%FF", "%C3", "U8", "&", "("],
+        "multipart" => &["P:text", "P:file", "P:filect", "P:conv", "P:nocd", "P:noblank", "P:badhdr", "P:noquote", "P:lfonly", "P:mixed", "P:hiname", "P:nofnquote", "P:openquote", "P:ctnoval",
+                         "N:text", "N:file", "N:filect", "N:conv", "N:nocd", "N:noblank", "N:lfonly", "N:openquote", "c", "CR", "LF", "-", "HI", "D", "D", "D", "D:other", "B", "END", "END", "CRLF"],
+        "setcookie" => &["n", "=", "v", "%41", "DQ", "%C3%A9", "; ", ";", "%FF", "%", "%G1", "Max-Age=", "max-age=", "Max-Age", "1", "x", " ", "-", "HUGE", "HI", "Path=", "Expires=", "Domain=", "/", "Secure", "HttpOnly", "SameSite=", "Lax", "Foo"],
+        _ => &["x", "1", "%41", "%C3%A9", "-", "%2F", "+", "%", "%4", "%G1", "%FF", "%C3", "%00", "HI", "9x20"],
+    };
+    let n = rng.below(13);
+    let mut ts: Vec<&str> = (0..n).map(|_| *rng.pick(toks)).collect();
+    // half of the multipart strings start like a body so that the later tokens are reached
+    if dec == "multipart" && rng.chance(1, 2) && !ts.is_empty() { ts[0] = *rng.pick(&["P:text", "P:file", "P:conv", "P:filect"]) }
+    if (dec == "urlenc" || dec == "cookie") && rng.chance(1, 2) && ts.len() >= 2 { ts[0] = "ka"; ts[1] = "=" }
+    let tag: String = match dec {
+        "urlenc" | "cookie" => match rng.below(12) { 0 => "f:nested".into(), 1 => "t:struct2".into(), 2 => "t:btreemap_int".into(), 3 => "t:opt_struct".into(), 4 => "t:newtype_struct".into(),
+                                                       _ => format!("{}:{}", if rng.chance(2, 3) { "f" } else { "t" }, rng.pick(KV_TYPES)) },
+        "multipart" => rng.pick(MP_TAGS).to_string(),
+        "setcookie" => "headers".into(),
+        _ => rng.pick(PCT_TAGS).to_string(),
+    };
+    let m = if rng.chance(2, 3) { 1 + (rng.next() % 1_000_000) } else { 0 };
+    json!({"dec": dec, "toks": ts, "faults": ["Random"], "target": {"tag": tag, "cls": "?"}, "mut": m, "cv": rng.next() % 1000, "id": i})
+}
